@@ -84,7 +84,7 @@ def method_for_year(schedule, year):
 class Hist:
     """symbolic (or concrete) history: per-slot variables plus the rp2 transaction objects built from them"""
 
-    def __init__(self, S, slots, years, prefix="", tz=False, ordered=True, shared_off=None, shared_sym=None, fixed_t=None, price_min=1, price_k=PRICE_K, price_max=PRICE_MAX, amount_max=AMOUNT_MAX):
+    def __init__(self, S, slots, years, prefix="", tz=False, ordered=True, shared_off=None, shared_sym=None, fixed_t=None, fixed_off=None, price_min=1, price_k=PRICE_K, price_max=PRICE_MAX, amount_max=AMOUNT_MAX):
         self.S = S
         self.slots = slots
         self.years = tuple(years)
@@ -97,7 +97,7 @@ class Hist:
             nm = "%s%d" % (prefix, i)
             if fixed_t is not None:
                 # concrete instants (reports that render month/day): only amounts, prices and filter dates stay symbolic
-                off = 0
+                off = fixed_off[i] if fixed_off is not None else 0
                 t = fixed_t[i]
             elif tz:
                 # local wall-clock time stays inside the window; the instant is local - offset
